@@ -310,11 +310,11 @@ def run(ctx: Ctx) -> None:
     records = [{"id": vid, "obs": obs[vid]} for vid, _, _ in values]
     for rec in records:
         ctx.require(len(rec["obs"]) == len(seeds) * norders, f"value {rec['id']}: {len(rec['obs'])} observations")
-    # negative control: one hash of a stable value replaced -> TLC must report two hashes and no licence
-    stable_fixed = next(i for i, (_, _, st) in enumerate(fixed_witnesses()) if st)
-    bad = copy.deepcopy(records[stable_fixed])
-    bad["id"] = 0
-    bad["obs"][-1]["h"] = "0" * 40
+    # negative control: two recordings of a set-free value in the very same iteration order but with
+    # different hashes -> TLC must report two hashes, no licence, and "same Ser, different hash"
+    noset = next(i for i, (n, _, _) in enumerate(fixed_witnesses()) if "no set" in n)
+    o0 = records[noset]["obs"][0]
+    bad = {"id": 0, "obs": [dict(o0), dict(o0, seed=99, h="0" * 40)]}
     verdicts = validate(ctx, records + [bad], "all")
     _tick(ctx, 'trace validated')
     pool.shutdown()
